@@ -45,8 +45,18 @@ def gen_ast(rng, depth):
     return ("I", lo, lo + rng.randint(0, 2), gen_ast(rng, depth - 1))
 
 
+def lit_ast(txt):
+    a = ("c", txt[0])
+    for ch in txt[1:]:
+        a = ("C", a, ("c", ch))
+    return a
+
+
 def enc(a):
     t = a[0]
+    if t == "B":
+        # a group holding a literal, something in between, then a reference to the group: the literal again
+        return enc(("C", ("C", lit_ast(a[1]), a[2]), lit_ast(a[1])))
     if t == "c":
         return ["c%d" % ord(a[1])]
     if t == "d":
@@ -64,24 +74,46 @@ def has(a, kinds):
     return a[0] in kinds or any(isinstance(x, tuple) and has(x, kinds) for x in a[1:])
 
 
-def show(a, ty, nl_alt=False):
-    """concrete syntax; returns None when the syntax cannot express the AST.  nl_alt: write the alternations of a grep pattern as newlines"""
+def show(a, ty, nl_alt=False, gnu_ops=False):
+    """concrete syntax; returns None when the syntax cannot express the AST.  nl_alt: write the alternations of a grep pattern as newlines;
+    gnu_ops: write '+' and '?' of posix-basic (ed, sed) with GNU's \\+ and \\? instead of the intervals they stand for.
+    Groups are numbered as they open (every pair of parentheses captures), for the back-references of the B nodes."""
     ext = ty == "posix-extended"
     lp, rp, bar = ("(", ")", "|") if ext else ("\\(", "\\)", "\\|")
     if nl_alt and ty == "grep":
         bar = "\n"
     basic = ty in ("posix-basic", "ed", "sed")
+    opened = [0]
 
     def atom(x):
+        if x[0] in ("c", "d", "k", "K", "X"):
+            return go(x)
+        opened[0] += 1
         s = go(x)
         if s is None:
             return None
-        if x[0] in ("c", "d", "k", "K"):
-            return s
         return lp + s + rp
 
     def go(x):
         t = x[0]
+        if t == "X":
+            return x[1]          # raw text (the malformed stream of C11)
+        if t == "B":
+            opened[0] += 1
+            k = opened[0]
+            mode = x[3] if len(x) > 3 else 0
+            mid = None if mode else (atom(x[2]) if x[2][0] == "A" else go(x[2]))
+            if (mid is None and not mode) or k > 9:
+                return None
+            if mode:
+                # the group inside another one that holds nothing else: both hold the literal, either may be referred to
+                opened[0] += 1
+                k2 = k + 1 if mode == 1 else k
+                if k2 > 9:
+                    return None
+                mid2 = atom(x[2]) if x[2][0] == "A" else go(x[2])
+                return None if mid2 is None else lp + lp + x[1] + rp + rp + mid2 + "\\%d" % k2
+            return lp + x[1] + rp + mid + "\\%d" % k
         if t == "c":
             return "\\." if x[1] == "." else x[1]
         if t == "d":
@@ -102,16 +134,16 @@ def show(a, ty, nl_alt=False):
             s = atom(x[1])
             if s is None:
                 return None
-            if basic:
+            if basic and not gnu_ops:
                 return s + "\\{1,\\}"
-            return s + ("\\+" if ty == "grep" else "+")
+            return s + ("\\+" if ty == "grep" or basic else "+")
         if t == "O":
             s = atom(x[1])
             if s is None:
                 return None
-            if basic:
+            if basic and not gnu_ops:
                 return s + "\\{0,1\\}"
-            return s + ("\\?" if ty == "grep" else "?")
+            return s + ("\\?" if ty == "grep" or basic else "?")
         s = atom(x[3])
         if s is None:
             return None
@@ -148,6 +180,18 @@ def run(ctx):
                 first = rng.choice([("O", ("c", x)), ("S", ("c", x)), ("I", 0, 2, ("c", x))])
                 second = rng.choice([("O", ("C", ("c", x), ("c", y))), ("S", ("C", ("c", x), ("c", y))), ("I", 0, 2, ("C", ("c", x), ("c", y)))])
                 body = ("C", first, second)
+            if rng.random() < 0.15:
+                # a back-reference to a group holding a literal is that literal again: the group first, anything in between, then
+                # the reference - at the top level or inside further groups (where the reference stands in a group still open)
+                lit = rng.choice(["a", "b", "ab", "ba", "c"])
+                body = ("B", lit, gen_ast(rng, rng.choice([0, 1, 2])), rng.choice([0, 0, 1, 2]))
+                wrap = rng.random()
+                if wrap < 0.3:
+                    body = ("S", body)
+                elif wrap < 0.5:
+                    body = ("A", body, gen_ast(rng, 1))
+                elif wrap < 0.6:
+                    body = ("C", ("O", gen_ast(rng, 1)), ("I", 1, 2, body))
             # patterns must match whole paths: give most of them a leading r/ or .*/
             lead = rng.choice(["r/", ".*/", ".*", ""])
             ast = body
@@ -164,7 +208,7 @@ def run(ctx):
                 alt2 = ("C", lead_ast, other) if lead_ast else other
                 ast = ("A", ast, alt2) if rng.random() < 0.5 else ("A", alt2, ast)
             ty = rng.choice(TYPES)
-            txt = show(ast, ty, nl_alt=rng.random() < 0.3)
+            txt = show(ast, ty, nl_alt=rng.random() < 0.3, gnu_ops=rng.random() < 0.5)
             if txt is None:
                 continue
             ci = rng.random() < 0.25
@@ -181,7 +225,7 @@ def run(ctx):
             code, out, err = wc.decode_find(i)
             got = set(out.split(b"\0")[:-1])
             exp = {p for p, b in zip(paths, m) if b == "1"}
-            ctx.count((txt, ty, ci), has(ast, "ASPOIkK"), ["type=" + ty, "icase=%d" % ci, "matches=%s" % (len(exp) if len(exp) < 3 else "3+")])
+            ctx.count((txt, ty, ci), has(ast, "ASPOIkKB"), ["type=" + ty, "icase=%d" % ci, "backref=%d" % has(ast, "B"), "matches=%s" % (len(exp) if len(exp) < 3 else "3+")])
             if code != 0 or got != exp:
                 bad.append((ty, txt, ci, code, got, exp, err))
         ctx.sample({"regextype": cases[0][1], "pattern": cases[0][2], "paths": [p.decode() for p in paths[:8]]})
@@ -254,7 +298,8 @@ def known(ctx, forest):
     # letter is that letter; emacs has no interval operator
     d2 = os.path.join(forest.dir, b"gr")
     os.mkdir(d2)
-    for n in (b"aa", b"abb", b"aba", b"aa0", b"a)", b"x$", b"x+", b"x~", b"x.", b"x3", b"x\xd9\xa3", b"xt", b"x\t", b"x{2}", b"xx", b"a\nb-", b"x:]", b"x3]"):
+    for n in (b"aa", b"abb", b"aba", b"aa0", b"a)", b"x$", b"x+", b"x~", b"x.", b"x3", b"x\xd9\xa3", b"xt", b"x\t", b"x{2}", b"xx", b"a\nb-", b"x:]", b"x3]",
+              b"{2}", b"{2}x", b"{2,1}", b"xa]a", b":a]a"):
         open(os.path.join(d2, n), "wb").close()
     cases2 = [("emacs", b"gr/\\(a\\)\\1", [b"gr/aa"]), ("posix-extended", b"gr/(a)(b)\\2", [b"gr/abb"]), ("posix-basic", b"gr/\\(a\\)\\(b\\)\\2", [b"gr/abb"]),
               ("grep", b"gr/\\(a\\)\\1", [b"gr/aa"]), ("posix-extended", b"gr/(a)\\10", [b"gr/aa0"]), ("posix-extended", b"gr/a)|gr/(a)b\\1", [b"gr/a)", b"gr/aba"]),
@@ -268,7 +313,16 @@ def known(ctx, forest):
               # a newline in a grep pattern separates alternatives (outside brackets); elsewhere it is a newline
               ("grep", b"gr/aa\ngr/abb", [b"gr/aa", b"gr/abb"]), ("grep", b"gr/a[\n]b-", [b"gr/a\nb-"]), ("posix-basic", b"gr/aa\ngr/abb", []),
               ("grep", b"gr/\\(aa\nabb\\)", [b"gr/aa", b"gr/abb"]),
-              ("emacs", b"gr/x\\{2\\}", [b"gr/x{2}"]), ("posix-basic", b"gr/x\\{2\\}", [b"gr/xx"]), ("posix-extended", b"gr/x{2}", [b"gr/xx"])]
+              ("emacs", b"gr/x\\{2\\}", [b"gr/x{2}"]), ("posix-basic", b"gr/x\\{2\\}", [b"gr/xx"]), ("posix-extended", b"gr/x{2}", [b"gr/xx"]),
+              # (seventh wave) GNU's grep syntax: "\{" with nothing to repeat is a brace; its posix-basic (ed, sed) has "\+" and "\?";
+              # "[.x.]" and "[=x=]" in a bracket expression are the character they name; emacs has no classes, also for where a group stands
+              ("grep", b"gr/\\(\\{2\\}\\)x\\{0,1\\}", [b"gr/{2}", b"gr/{2}x"]), ("grep", b"gr/aa\\|\\{2\\}", [b"gr/aa"]), ("grep", b"gr/\\(^\\{2\\}\\)", []),
+              ("grep", b"gr/x\\{2\\}", [b"gr/xx"]), ("grep", b"gr/\\(\\{2,1\\}\\)", [b"gr/{2,1}"]),
+              ("posix-basic", b"gr/a\\+", [b"gr/aa"]), ("sed", b"gr/ab\\?b\\+", [b"gr/abb"]), ("ed", b"gr/a\\+b*a\\?0\\?", [b"gr/aa", b"gr/aba", b"gr/aa0", b"gr/abb"]),
+              ("posix-basic", b"gr/\\(\\+\\|x\\)\\+", [b"gr/xx", b"gr/x+"]), ("posix-basic", b"gr/x[+]\\|gr/x\\\\+", [b"gr/x+"]),
+              ("posix-extended", b"gr/[[=a=]]+", [b"gr/aa"]), ("emacs", b"gr/x[[.$.]~]", [b"gr/x$", b"gr/x~"]), ("grep", b"gr/x[^[=3=][.t.]x]", [b"gr/x$", b"gr/x+", b"gr/x~", b"gr/x.", b"gr/x\xd9\xa3", b"gr/x\t"]),
+              ("posix-basic", b"gr/x[[.+.]-3]", [b"gr/x+", b"gr/x.", b"gr/x3"]),
+              ("emacs", b"gr/[[:x:]\\(a\\)]\\1", [b"gr/xa]a", b"gr/:a]a"]), ("emacs", b"gr/\\(\\(a\\)\\2\\)", [b"gr/aa"]), ("posix-extended", b"gr/((a)\\2|x)+", [b"gr/aa", b"gr/xx"])]
     for root, ty, pat, want in [(b"nl",) + c for c in cases] + [(b"gr",) + c for c in cases2]:
         for flag in (b"-regex", b"-iregex"):
             line = "find - %s %s" % (fw.hexs(forest.dir), xc.hexlist([root, b"-regextype", ty.encode(), flag, pat, b"-print0"]))
@@ -293,7 +347,14 @@ def wrapper(ctx):
     for n in range(0, (5 if ctx.thorough else 4) + 1):
         for tup in itertools.product(alpha, repeat=n):
             pats.append("".join(tup))
-    pieces = alpha + ["[:punct:]", "[:digit:]", "[:alpha:]", "[[:punct:]]", "[^[:digit:]x]", "\\1", "\\9", "\\(", "\\)", "[)]", "[]", "[^]", "\u00e9", ".", "*", "{2}", "[:punct", "[:"]
+    # the operators of the basic syntaxes (what is an operator depends on where it stands) and collating symbols: every pattern up to
+    # length 3 over a second alphabet, and as pieces of the longer random ones
+    alpha2 = ["\\", "{", "}", "+", "?", "(", "|", "^", "*", "[", "]", ".", "=", "a", "\n", ":"]
+    for n in range(1, (4 if ctx.thorough else 3) + 1):
+        for tup in itertools.product(alpha2, repeat=n):
+            pats.append("".join(tup))
+    pieces = alpha + ["[:punct:]", "[:digit:]", "[:alpha:]", "[[:punct:]]", "[^[:digit:]x]", "\\1", "\\9", "\\(", "\\)", "[)]", "[]", "[^]", "\u00e9", ".", "*", "{2}", "[:punct", "[:",
+                      "\\{", "\\}", "\\{1,2\\}", "\\+", "\\?", "\\|", "\\\\", "[.a.]", "[=a=]", "[[.a.]-c]", "[[=a=]b]", "[.-.]", "[.:.]", "[=]=]", "[.ab.]", "[.", "[=", ".]", "+", "?", "{", "}"]
     for _ in range(20000 if ctx.thorough else 2000):
         pats.append("".join(rng.choice(pieces) for _ in range(rng.randint(1, 9))))
     cases = [(p, e) for p in pats for e in ("emacs", "posix-basic", "posix-extended", "grep")]
@@ -305,7 +366,7 @@ def wrapper(ctx):
     for (p, e), i, m in zip(cases, impl, model):
         mt = "" if m == "-" else "".join(chr(int(x)) for x in m.split("."))
         it = fw.unhex(i).decode("utf-8", "replace") if i not in ("panic", "badcase", "badutf8") else i
-        ctx.count(("wrap", p, e), any(c in p for c in "\\[)"), ["wrapper", "regextype=%s" % e, "len=%s" % (len(p) if len(p) < 6 else "6+")])
+        ctx.count(("wrap", p, e), any(c in p for c in "\\[)"), ["wrapper", "regextype=%s" % e, "len=%s" % (len(p) if len(p) < 6 else "6+"), "rewritten=%d" % (it != p)])
         if it != mt:
             bad.append((p, e, it, mt))
     for p, e, it, mt in bad[:3]:
